@@ -85,7 +85,7 @@ def high_offset_msg(rng, target_off):
                   {'ty': 15, 'name': (b'zzz',) + n[1:], 'ttl': 0, 'cls': 1, 'f': [10, (b'mx', b'ns') + n]}])
     return m
 
-def straddle_msg(target_off, labels=(b'aaaa', b'bbbb', b'cc', b'example')):
+def straddle_msg(target_off, labels=(b'aaaa', b'bbbb', b'cc', b'example'), newtype=False):
     """a multi-label name that starts at `target_off` (so that its later labels sit at and beyond 0x4000 when the
     offset is just below), followed by names that share each of its proper suffixes only"""
     n = tuple(labels)
@@ -93,9 +93,15 @@ def straddle_msg(target_off, labels=(b'aaaa', b'bbbb', b'cc', b'example')):
     if k < 0 or k > 65000: return None
     rrs = [{'ty': 10, 'name': (b'p',), 'ttl': 0, 'cls': 1, 'f': [b'\0' * k]},
            {'ty': 1, 'name': n, 'ttl': 0, 'cls': 1, 'f': [b'\1\2\3\4']}]
+    if newtype:
+        # the straddling name sits inside the RDATA of a post-RFC-1035 type (written literally)
+        rrs[1] = {'ty': 33, 'name': (b's',), 'ttl': 0, 'cls': 1, 'f': [1, 2, 3, n]}
+        rrs[0]['f'] = [b'\0' * max(0, k - 8)]
     for i in range(1, len(n)):
         rrs.append({'ty': 1, 'name': (b'w%d' % i,) + n[i:], 'ttl': 0, 'cls': 1, 'f': [b'\1\2\3\4']})
         rrs.append({'ty': 2, 'name': (b'v%d' % i,) + n[i:], 'ttl': 0, 'cls': 1, 'f': [(b'u%d' % i,) + n[i:]]})
+        if newtype:
+            rrs.append({'ty': 36, 'name': (b'k%d' % i,) + n[i:], 'ttl': 0, 'cls': 1, 'f': [5, (b'kx',) + n[i:]]})
     return msg_with(rrs)
 
 def nested_long_names(step=15, limit=255):
@@ -148,9 +154,37 @@ def C01(tier, rng):
         cs.append(Case('dec.name %s' % hx(b'\x01a' * (n // 2) + b'\0' * (n % 2)), 'big'))
     for b in pointer_graphs(sz(tier, 3, 4)):
         cs.append(Case('dec.name %s' % hx(b), 'graph'))
+    cs += growth_straddle_cases('dec.dns', tier)
     if tier != 'thorough':
         return cs
     return c01_thorough_chunks(cs)
+
+def growth_straddle_wire(start, labels=4, lablen=50, ty=2):
+    """A decodable message (<= 65536 octets) whose re-encoding is longer than itself: the owner (and RDATA name) of the
+    last record is a pointer to the literal target of an SRV record, which an encoder does not remember. `start` is
+    the offset at which the re-encoded owner name begins; with start near 65535 the name straddles the 64 KiB mark."""
+    tgt = b''.join(bytes([lablen]) + bytes([0x61 + i]) * lablen for i in range(labels)) + b'\0'
+    hdr = b'\0\1\x84\0\0\0\0\3\0\0\0\0'
+    srv = b'\0' + b'\0\x21\0\1\0\0\0\0' + (6 + len(tgt)).to_bytes(2, 'big') + b'\0\1\0\2\0\3' + tgt
+    tgt_off = 12 + 11 + 6
+    fill = start - (12 + len(srv) + 11)
+    if fill < 0 or fill > 65535: return None
+    null = b'\0' + b'\0\x0a\0\1\0\0\0\0' + fill.to_bytes(2, 'big') + b'\0' * fill
+    ptr = (0xC000 | tgt_off).to_bytes(2, 'big')
+    rd = ptr if ty == 2 else b'\0\5' + ptr
+    last = ptr + ty.to_bytes(2, 'big') + b'\0\1\0\0\0\0' + len(rd).to_bytes(2, 'big') + rd
+    w = hdr + srv + null + last
+    return w if len(w) <= 65536 else None
+
+def growth_straddle_cases(op, tier):
+    cs = []
+    for labels, lablen in ((4, 50), (2, 63), (20, 10), (100, 1)):
+        tl = labels * (lablen + 1) + 1
+        for start in list(range(65535 - tl - 2, 65536 - 14, sz(tier, 7, 1))) + [65535 - tl, 65536 - tl, 65534 - tl]:
+            for ty in (2, 15):
+                w = growth_straddle_wire(start, labels, lablen, ty)
+                if w: cs.append(Case('%s %s' % (op, hx(w)), 'growth-straddle'))
+    return cs
 
 def c01_thorough_chunks(first):
     """thorough tier: after the base stream, ALL three-octet strings for all nine entry points, in chunks"""
@@ -229,7 +263,36 @@ def C02(tier, rng):
         m = msg_with([{'ty': 2, 'name': n, 'ttl': 0, 'cls': 1, 'f': [n]} for n in names])
         b, _ = render(m, Layout(random.Random(step), compress=1.0))
         cs.append(Case('rt.dns %s' % hx(b), 'nested-long'))
+    cs += growth_straddle_cases('rt.dns', tier)[::3]
+    hdr1 = b'\0\1\x81\x80\0\0\0\1\0\0\0\0'
+    for ty in (64, 65):
+        for prio in (0, 1):
+            for ps in ([pw(3, b'\x20\xfb')], [pw(1, b'\2h2'), pw(4, b'\xc0\0\2\1')], []):
+                cs.append(Case('rt.dns %s' % hx(hdr1 + svcb_rr(ty, prio, b'\3svc\0', ps)), 'svcb-alias'))
+    for pair in look_alike_name_pairs():
+        b, _ = render(names_msg_a(pair))
+        cs.append(Case('rt.dns %s' % hx(b), 'look-alike'))
     return cs
+
+def look_alike_name_pairs():
+    """names that are NOT equal but easy to confuse: octets differing only in bit 0x20 that are not letters, a dotted
+    label against the corresponding label sequence, multi-byte UTF-8 case pairs"""
+    suf = (b'example', b'org')
+    pairs = [((b'srv[1}',), (b'srv{1}',)), ((b'{id}',), (b'[id]',)), ((b'_dmarc',), (b'\x7fdmarc',)), ((b'a@b',), (b'a`b',)),
+             ((b'\xc3\x89',), (b'\xc3\xa9',)), ((b'1',), (b'\x11',)), ((b'a.b',), (b'a', b'b')), ((b'x', b'a.b'), (b'x', b'a', b'b')),
+             ((b'a', b'b.example'), (b'a', b'b', b'example')), ((b'Zone',), (b'zone',)), ((b'ZZ', b'top'), (b'zz', b'top'))]
+    out = []
+    for a, b in pairs:
+        out.append((a + suf, b + suf)); out.append((b + suf, a + suf))
+    return out
+
+def names_msg_a(names):
+    """questions for the first name, NS records (owner + compressible RDATA name) for all"""
+    qs = [{'name': names[0], 'qtype': 1, 'qclass': 1}]
+    rrs = []
+    for n in names:
+        rrs.append({'ty': 2, 'name': n, 'ttl': 0, 'cls': 1, 'f': [(b'ns',) + n]})
+    return msg_with(rrs, qs=qs)
 
 def nested_owner_msg(k):
     """k progressively nested owner names a0, a1.a0, a2.a1.a0 ... written uncompressed by python;
@@ -335,6 +398,18 @@ def C04(tier, rng):
         if m:
             b, _ = render(m, Layout(rng, compress=1.0))
             cs.append(Case('dec.dns %s' % hx(b), 'hioff', exp=abs_msg_text(m)))
+    # the smallest legal messages: root owner names, empty RDATA, nothing else
+    bare_opt = {'ty': 41, 'payload': 1232, 'ext': 0, 'ver': 0, 'do': 0, 'opts': []}
+    empties = [{'ty': t, 'name': (), 'ttl': 0, 'cls': 1, 'f': [b'']} for t in (10, 22, 31, 32)] + [{'ty': 42, 'name': (), 'ttl': 0, 'cls': 1, 'items': []}]
+    rootq = {'name': (), 'qtype': 2, 'qclass': 1}
+    for qs in ([], [rootq]):
+        for rrs in ([bare_opt], [empties[0]], empties, [empties[0]] * 3, [bare_opt] + empties, [empties[4], bare_opt]):
+            m = msg_with([], qs=qs); m['ar'] = list(rrs)
+            b, _ = render(m)
+            cs.append(Case('dec.dns %s' % hx(b), 'minimal', exp=abs_msg_text(m)))
+            m2 = msg_with(list(rrs), qs=qs)
+            b, _ = render(m2)
+            cs.append(Case('dec.dns %s' % hx(b), 'minimal', exp=abs_msg_text(m2)))
     # names at the 255-octet limit reached through many hops (compressed layouts of nested long names)
     for step in (5, 9, 15, 20, 30, 62):
         names = nested_long_names(step)
